@@ -121,7 +121,67 @@ func c02Offsets(c *Ctx) {
 	} {
 		runWire(c, rule, w)
 	}
-	c.Min(rule, 10)
+	// page locations are recorded relative to the first data page of the chunk:
+	// the offset they are rebased with is the very measurement recorded as
+	// DataPageOffset (taken after the dictionary page was written), not another
+	// reading of the file offset
+	p := c.P
+	if obj := p.LookupFunc(wr); obj != nil {
+		fn := p.SSAFunc(obj)
+		locOff := p.LookupField("format.PageLocation", "Offset")
+		dpo := p.LookupField("format.ColumnMetaData", "DataPageOffset")
+		if c.Anchor(rule, "format.PageLocation.Offset", locOff != nil) && c.Anchor(rule, "format.ColumnMetaData.DataPageOffset", dpo != nil) {
+			measured := map[ssa.Value]bool{} // the loads stored into DataPageOffset
+			type rebase struct {
+				st   *ssa.Store
+				with []ssa.Value
+			}
+			var rebases []rebase
+			allInstrs(fn, false, func(_ *ssa.Function, ins ssa.Instruction) {
+				st, ok := ins.(*ssa.Store)
+				if !ok {
+					return
+				}
+				fs, _, _ := fieldChain(st.Addr)
+				if len(fs) == 0 {
+					return
+				}
+				switch fs[len(fs)-1] {
+				case dpo:
+					for _, o := range Origins(st.Val, OriginOpts{}) {
+						if o.Kind == OrgField {
+							measured[o.Val] = true
+						}
+					}
+				case locOff:
+					b, ok := st.Val.(*ssa.BinOp)
+					if !ok || b.Op != token.ADD {
+						return
+					}
+					var with []ssa.Value
+					for _, side := range []ssa.Value{b.X, b.Y} {
+						for _, o := range Origins(side, OriginOpts{}) {
+							if o.Kind == OrgField && o.Field != locOff {
+								with = append(with, o.Val)
+							}
+						}
+					}
+					rebases = append(rebases, rebase{st, with})
+				}
+			})
+			for i, rb := range rebases {
+				ok := len(rb.with) > 0
+				for _, v := range rb.with {
+					if !measured[v] {
+						ok = false
+					}
+				}
+				c.Check(rule, wr+": page locations rebased with the recorded DataPageOffset #"+itoa(i), rb.st.Pos(), ok, "the offset added to the page locations of the chunk is not the measurement stored as DataPageOffset (it is read from the file offset at another moment, e.g. before the dictionary page is written): the offset index of the chunk points "+"into the dictionary page and seeking in the written file fails")
+			}
+			c.Check(rule, wr+": page location rebases found", fn.Pos(), len(rebases) >= 2, "fewer page-location rebases than on the pinned tree (rule out of date)")
+		}
+	}
+	c.Min(rule, 12)
 }
 
 // c02Header: page header wiring and ordering (shared with C01).
